@@ -4,7 +4,7 @@ import os
 import subprocess
 import sys
 
-from .. import chancorr, core
+from .. import chancorr, core, sshutil, streams_e2e
 
 IMPORTS = 'From AV Require Import Base.Prelude Model.Channel Corr.C08Corr.'
 
@@ -59,17 +59,32 @@ def stage_zero_pktsize(ctx):
 
 def run(ctx):
     ctx.cov['rule'] = ('same op-sequence engine as C07 plus hostile raw data packets that ignore the window (ORaw) while '
-                       'the reader is paused; running-sum oracles on the tapped DATA / WINDOW_ADJUST packets; '
+                       'the reader is paused (plain and extended data); line readers through the stream API on small windows; running-sum oracles on the tapped DATA / WINDOW_ADJUST packets; '
                        'non-trivial = data delivered and at least one pause/resume')
     ctx.cov['trusted_base'] += [
         'liveness is proved as "every quiescent state with the reader reading has everything delivered" plus '
         'termination of the send loop; termination of the whole pumping process is observed, not proved',
-        'stream-level pausing (SSHReader at one window of buffered data) is exercised end to end in C19, not modelled here',
+        'stream-level pausing (SSHReader at one window of buffered data) is not modelled here: it is exercised end to end '
+        '(line readers with lines longer than the window) and modelled in C19',
     ]
     ctx.prove()
     n = 1500 if ctx.tier == 'thorough' else 220
     chancorr.run_cases(ctx, 'C08', n, 0.35, IMPORTS, 'chk_channel')
     stage_zero_pktsize(ctx)
+    # stream-level flow control: a line reader on a small window with lines longer than the window must get every
+    # byte and reach EOF (the stream pauses the channel at one window of buffered data and must resume it)
+    ns = 300 if ctx.tier == 'thorough' else 40
+    fails = 0
+    for k in range(ns):
+        if fails >= 3:
+            break
+        bad, cfg = sshutil.run(streams_e2e.lines_case(ctx.rng), timeout=300)
+        ctx.note_case(('stream_lines', k, cfg['window'], cfg['sep'], cfg['lag'], str(cfg['lens'])),
+                      nontrivial=any(isinstance(x, int) and x > cfg['window'] for x in cfg['lens']))
+        ctx.count('e2e.stream_lines')
+        if bad:
+            fails += 1
+            ctx.failing_input('stream API: ' + bad, cfg)
     if ctx.cov['distribution'].get('op.X', 0) < 20:
         ctx.broke('vacuity:hostile', 'too few hostile data packets generated')
     if ctx.cov['distribution'].get('cases_ending_in_protocol_error', 0) < 3:
@@ -85,6 +100,15 @@ def replay(rp):
                                               lambda kind, what, d: fails.append((kind, what))))
         print(fails)
         return 1 if any(k == 'C08' for k, _ in fails) else 0
+    if rp.get('kind') == 'stream_lines':
+        import random
+        rng = random.Random(1)
+        for _ in range(80):
+            bad, cfg = sshutil.run(streams_e2e.lines_case(rng), timeout=300)
+            if bad:
+                print('still fails:', bad, cfg)
+                return 1
+        return 0
     if rp.get('kind') == 'zero_pktsize':
         try:
             p = subprocess.run([core.PY, '-c', ZERO_PKT_PROBE, core.REPO, core.VERIF, rp['mode']], capture_output=True,
